@@ -7,6 +7,7 @@
 
      e ::= c | (quote d) | (if e e e) | (if e e) | x | (define x e) | (set! x e)     (x global in define/set!)
          | (lambda (x1 ... xn) body)        in ANY expression position; body: one expression of the fragment
+                                            [FRAGMENT 4: body = e1 ... ek, k >= 1, no ei a define form]
          | (e0 e1 ... en)                   e0 evaluates to a builtin procedure or to a closure
 
    A variable is a parameter of an enclosing lambda (captured by the inner lambdas that mention
@@ -42,7 +43,7 @@ Arguments N.ltb : simpl never.
 Arguments N.leb : simpl never.
 
 (* ============================================================ syntax *)
-(* [ZLam ps fs body]: fs is an ANNOTATION, the list of free symbols the compiler's analysis
+(* [ZLam ps fs bodies]: bodies = the body expressions e1 ... ek; fs is an ANNOTATION, the list of free symbols the compiler's analysis
    reports for the lambda expression ([wf4] demands exactly that); it does not occur in the datum *)
 Inductive expr4 :=
 | ZConst (c : cell)
@@ -169,7 +170,7 @@ Fixpoint expr4_ind2 (e : expr4) : P e :=
 End expr4_ind2.
 
 (* ============================================================ values *)
-(* a closure: parameters, captured names, body, the values of the captured variables *)
+(* a closure: parameters, captured names, body expressions, the values of the captured variables *)
 Inductive rval4 :=
 | R4Base (r : rval)
 | R4Clo (ps cs : list text) (bodies : list expr4) (cvals : list rval4).
@@ -177,11 +178,11 @@ Inductive rval4 :=
 Section rval4_ind2.
 Variable P : rval4 -> Prop.
 Hypothesis Hbase : forall r, P (R4Base r).
-Hypothesis Hclo : forall ps cs body cvals, Forall P cvals -> P (R4Clo ps cs body cvals).
+Hypothesis Hclo : forall ps cs bodies cvals, Forall P cvals -> P (R4Clo ps cs bodies cvals).
 Fixpoint rval4_ind2 (r : rval4) : P r :=
   match r with
   | R4Base b => Hbase b
-  | R4Clo ps cs body cvals => Hclo ps cs body cvals
+  | R4Clo ps cs bodies cvals => Hclo ps cs bodies cvals
       ((fix go (l : list rval4) : Forall P l :=
           match l with [] => Forall_nil P | x :: t => Forall_cons x (rval4_ind2 x) (go t) end) cvals)
   end.
@@ -203,7 +204,8 @@ Variable bsem : N -> list rval -> option rval.
 (* [ref_eval4 sc lv rho e r rho']: inside a lambda whose environment binds the names sc to the
    values lv (top level: both empty), with the global environment rho, e has the value r and
    leaves the global environment rho'.  Call by value, operands left to right, then the operator,
-   then the body of the closure with its parameters bound to the operands and its captured names
+   then the body expressions of the closure, in sequence (the value is that of the last one), with
+   its parameters bound to the operands and its captured names
    to the captured values.  Local variables are immutable (set! acts on globals only), so a
    captured variable is represented by its value. *)
 Inductive ref_eval4 : list text -> list rval4 -> env4 -> expr4 -> rval4 -> env4 -> Prop :=
@@ -402,18 +404,18 @@ Definition closure_code (m : vm) (lamp : N) (ps cs : list text) (bodies : list e
 Fixpoint vrep4 (m : vm) (v : vcell) (r : rval4) {struct r} : Prop :=
   match r with
   | R4Base b => vrep v b (hp m) (st m)
-  | R4Clo ps cs body cvals =>
+  | R4Clo ps cs bodies cvals =>
       exists cp lamp cep ceid cslots, v = VPtr cp /\
         allocated (hp m) cp /\ cell_at (hp m) cp = VClosure lamp cep /\
         allocated (hp m) cep /\ cell_at (hp m) cep = VLexEnv ceid /\ ceid < next_id (st m) /\
         tget (envs (st m)) ceid = Some cslots /\ len cslots = len ps + len cs /\
-        length cvals = length cs /\ closure_code m lamp ps cs body /\
+        length cvals = length cs /\ closure_code m lamp ps cs bodies /\
         all_idx (fun i cv => exists v', list_get cslots i = Some v' /\ ptr_slot m v' (fun w => vrep4 m w cv))
                 cvals (len ps)
   end.
 
-Lemma closure_code_ext m m' lamp ps cs body : cext m m' -> closure_code m lamp ps cs body ->
-  closure_code m' lamp ps cs body.
+Lemma closure_code_ext m m' lamp ps cs bodies : cext m m' -> closure_code m lamp ps cs bodies ->
+  closure_code m' lamp ps cs bodies.
 Proof.
   intros X (lam & caps & cb & f & lam2 & s0 & lam3 & s0' & H1 & H2 & H3 & H4 & H5 & H6 & H7 & H8 & H9 & H10 & H11 & H12 & H13 & H14 & H15).
   exists lam, caps, cb, f, lam2, s0, lam3, s0'.
@@ -432,7 +434,7 @@ Qed.
 
 Lemma vrep4_ext m m' : rext m m' -> forall r v, vrep4 m v r -> vrep4 m' v r.
 Proof.
-  intros R. induction r as [b|ps cs body cvals IH] using rval4_ind2; intros v H.
+  intros R. induction r as [b|ps cs bodies cvals IH] using rval4_ind2; intros v H.
   - cbn [vrep4] in *. eapply vrep_ext; [exact H|apply cext_ext, R].
   - cbn [vrep4] in *.
     destruct H as (cp & lamp & cep & ceid & cslots & -> & A1 & C1 & A2 & C2 & Lt & T & L & Lc & CC & All).
@@ -450,7 +452,7 @@ Qed.
 Lemma vrep4_truth m v r : vrep4 m v r ->
   exists w, heap_deref (hp m) v = Ok w /\ (w = VBool false <-> is_false4 r = true).
 Proof.
-  destruct r as [b|ps cs body cvals]; cbn [vrep4 is_false4].
+  destruct r as [b|ps cs bodies cvals]; cbn [vrep4 is_false4].
   - apply vrep_truth.
   - intros (cp & lamp & cep & ceid & cslots & -> & A1 & C1 & _).
     exists (VClosure lamp cep). cbn [heap_deref]. rewrite (heap_get_alloc _ _ A1), C1.
@@ -458,19 +460,19 @@ Proof.
 Qed.
 Lemma vrep4_not_op m v r : vrep4 m v r -> forall o, v <> VOp o.
 Proof.
-  destruct r as [b|ps cs body cvals]; cbn [vrep4].
+  destruct r as [b|ps cs bodies cvals]; cbn [vrep4].
   - apply vrep_not_op.
   - intros (cp & lamp & cep & ceid & cslots & -> & _) o. discriminate.
 Qed.
 Lemma vrep4_not_undef m v r : vrep4 m v r -> r <> R4Base (RDatum CUndef) -> v <> VUndef.
 Proof.
-  destruct r as [b|ps cs body cvals]; cbn [vrep4].
+  destruct r as [b|ps cs bodies cvals]; cbn [vrep4].
   - intros H Hr. eapply vrep_not_undef; [exact H|]. intros ->. apply Hr. reflexivity.
   - intros (cp & lamp & cep & ceid & cslots & -> & _) _. discriminate.
 Qed.
 Lemma vrep4_not_lexptr m v r : vrep4 m v r -> forall e j, v <> VLexPtr e j.
 Proof.
-  destruct r as [b|ps cs body cvals]; cbn [vrep4].
+  destruct r as [b|ps cs bodies cvals]; cbn [vrep4].
   - apply vrep_not_lexptr.
   - intros (cp & lamp & cep & ceid & cslots & -> & _) e j. discriminate.
 Qed.
